@@ -45,7 +45,10 @@ type Commit struct {
 	// file, so whether git reports it as a rename depends on its similarity
 	// heuristic.
 	Fuzzy bool `json:"fuzzy,omitempty"`
-	Tree  Tree `json:"tree"`
+	// CameIn is only set by Project: paths created in this commit by a rename from a
+	// path outside the parser filter.
+	CameIn []string `json:"came_in,omitempty"`
+	Tree   Tree     `json:"tree"`
 }
 
 // History: Base commits on "main" (the last one is the fork point), Branch
@@ -106,14 +109,20 @@ type Track struct {
 	// defensible in corner cases (see Ledger); an oracle accepts a file if it is
 	// classified consistently with any one of them.
 	Origins []Origin
-	Renamed bool // the file went through at least one rename on the branch
-	Fuzzy   bool // ... one of which was combined with an edit
-	Revived bool // deleted and re-created at the same path on the branch
-	OverOld bool // renamed onto a path that an earlier branch commit had deleted
-	Touched int  // number of branch commits that renamed, deleted, re-created or edited the file
+	Renamed bool     // the file went through at least one rename on the branch
+	Fuzzy   bool     // ... one of which was combined with an edit
+	Revived bool     // deleted and re-created at the same path on the branch
+	OverOld bool     // renamed onto a path that an earlier branch commit had deleted
+	CameIn  bool     // (projected histories) created or re-created by a rename from outside the parser filter
+	BornAt  int      // index of the branch commit that created the file (-1: it exists at the fork point); for a revived file: of its first life
+	Paths   []string // every path the file lived at, from the fork point (or its creation) to HEAD
+	Touched int      // number of branch commits that renamed, deleted, re-created or edited the file
 }
 
 type trk struct {
+	cameIn  bool
+	born    int
+	paths   []string
 	touched int
 	origin  string
 	alt     []string
@@ -138,10 +147,10 @@ func (h History) Ledger() []Track {
 	cur := map[string]*trk{}
 	dormant := map[string]*trk{}
 	for _, f := range h.Fork() {
-		cur[f.Path] = &trk{origin: f.Path}
+		cur[f.Path] = &trk{origin: f.Path, paths: []string{f.Path}, born: -1}
 	}
 	prev := h.Fork()
-	for _, c := range h.Branch {
+	for ci, c := range h.Branch {
 		src := map[string]bool{}
 		dst := map[string]bool{}
 		for _, rn := range c.Renames {
@@ -161,6 +170,7 @@ func (h History) Ledger() []Track {
 				// the file's origin, not the file that used to live at this path
 				t.overOld = true
 			}
+			t.paths = append(t.paths, rn[1])
 			cur[rn[1]] = t
 			src[rn[0]] = true
 			dst[rn[1]] = true
@@ -184,13 +194,20 @@ func (h History) Ledger() []Track {
 		}
 		for _, f := range c.Tree {
 			if !was[f.Path] && !dst[f.Path] {
+				in := false
+				for _, p := range c.CameIn {
+					if p == f.Path {
+						in = true
+					}
+				}
 				if d, ok := dormant[f.Path]; ok {
+					d.cameIn = d.cameIn || in
 					d.revived = true
 					d.touched++
 					cur[f.Path] = d
 					delete(dormant, f.Path)
 				} else {
-					cur[f.Path] = &trk{}
+					cur[f.Path] = &trk{paths: []string{f.Path}, born: ci, cameIn: in}
 				}
 			}
 		}
@@ -209,7 +226,7 @@ func (h History) Ledger() []Track {
 		if t == nil {
 			t = &trk{}
 		}
-		tr := Track{Path: f.Path, Touched: t.touched, Renamed: t.renamed, Fuzzy: t.fuzzy, Revived: t.revived, OverOld: t.overOld}
+		tr := Track{Path: f.Path, Paths: t.paths, BornAt: t.born, CameIn: t.cameIn, Touched: t.touched, Renamed: t.renamed, Fuzzy: t.fuzzy, Revived: t.revived, OverOld: t.overOld}
 		tr.Origins = append(tr.Origins, Origin{Path: t.origin})
 		for _, a := range t.alt {
 			tr.Origins = append(tr.Origins, Origin{Path: a})
@@ -342,4 +359,40 @@ func (h History) LostRenameSources() []string {
 	}
 	sort.Strings(out)
 	return out
+}
+
+// Project restricts a history to the paths a parser include/exclude filter
+// lets pint see: files outside are dropped from every tree; a rename from an
+// allowed to a not allowed path becomes a deletion; a rename from a not allowed
+// to an allowed path becomes a creation, recorded in Commit.CameIn; renames
+// between two paths outside disappear.
+func (h History) Project(allowed func(string) bool) (p History) {
+	proj := func(cs []Commit, branch bool) []Commit {
+		var out []Commit
+		for _, c := range cs {
+			n := Commit{Msg: c.Msg, Ops: c.Ops, Fuzzy: c.Fuzzy}
+			for _, f := range c.Tree {
+				if allowed(f.Path) {
+					n.Tree = append(n.Tree, f)
+				}
+			}
+			for _, rn := range c.Renames {
+				switch {
+				case allowed(rn[0]) && allowed(rn[1]):
+					n.Renames = append(n.Renames, rn)
+				case !allowed(rn[0]) && allowed(rn[1]) && branch:
+					n.CameIn = append(n.CameIn, rn[1])
+				}
+			}
+			if len(n.Renames) == 0 {
+				n.Fuzzy = false
+			}
+			out = append(out, n)
+		}
+		return out
+	}
+	p.Base = proj(h.Base, false)
+	p.Branch = proj(h.Branch, true)
+	p.MainAfter = proj(h.MainAfter, false)
+	return p
 }
